@@ -296,6 +296,56 @@ Definition gzip_serve (cs : bool) (cfgs : list gcfg) (path ae : bytes) (s : list
        | None => run_plain s
        | Some c => run_gz c s
        end.
+(* ---------- informational responses (net/http since Go 1.19) ----------
+   WriteHeader(code) with 100 <= code <= 199, code <> 101, sends an informational response with
+   the header map as it is and does NOT start the final response: the header map stays open and
+   a later WriteHeader / Write / Flush commits the final status.  The model above treats every
+   WriteHeader as the final one; the [_i] functions below are the faithful ones (the judge uses
+   them), and coincide with the ones above on every script without informational WriteHeader
+   (C18_info_free_same_model).  Below the gzip layer an informational WriteHeader is NOT inert:
+   ResponseFilterWriter.WriteHeader takes its decision and gzipResponseWriter.WriteHeader
+   rewrites the header map at that moment. *)
+Definition is_info (code : Z) : bool := (100 <=? code)%Z && (code <=? 199)%Z && negb (code =? 101)%Z.
+Definition is_info_op (o : op) : bool := match o with OWriteHeader c => is_info c | _ => false end.
+Definition info_free (s : list op) : bool := forallb (fun o => negb (is_info_op o)) s.
+Definition commit_i (code : Z) (u : uw) : uw := if is_info code then u else uw_commit code u.
+
+Definition pstep_i (u : uw) (o : op) : uw :=
+  match o with
+  | OWriteHeader c => commit_i c u
+  | _ => pstep u o
+  end.
+Definition run_plain_i (s : list op) : uw := fold_left pstep_i s u0.
+
+Definition gz_write_header_i (code : Z) (g : gst) : gst :=
+  {| g_u := commit_i code (uw_sethdr gz_hdr (g_u g)); g_rfw := g_rfw g; g_should := g_should g;
+     g_gzw := true; g_active := g_active g; g_ws := g_ws g |}.
+Definition rf_write_header_i (c : gcfg) (code : Z) (g : gst) : gst :=
+  if g_rfw g then
+    if g_should g then gz_write_header_i code g
+    else {| g_u := commit_i code (g_u g); g_rfw := g_rfw g; g_should := g_should g; g_gzw := g_gzw g;
+            g_active := g_active g; g_ws := g_ws g |}
+  else
+  if resp_ok c (u_hdr (g_u g)) then
+    let g1 := gz_write_header_i code
+                {| g_u := g_u g; g_rfw := g_rfw g; g_should := g_should g; g_gzw := g_gzw g;
+                   g_active := true; g_ws := g_ws g |} in
+    {| g_u := g_u g1; g_rfw := true; g_should := true; g_gzw := g_gzw g1; g_active := g_active g1; g_ws := g_ws g1 |}
+  else
+    {| g_u := commit_i code (g_u g); g_rfw := true; g_should := false; g_gzw := g_gzw g;
+       g_active := g_active g; g_ws := g_ws g |}.
+Definition gstep_i (c : gcfg) (g : gst) (o : op) : gst :=
+  match o with
+  | OWriteHeader code => rf_write_header_i c code g
+  | _ => gstep c g o
+  end.
+Definition run_gz_i (c : gcfg) (s : list op) : uw := g_finish (fold_left (gstep_i c) s g0).
+Definition gzip_serve_i (cs : bool) (cfgs : list gcfg) (path ae : bytes) (s : list op) : uw :=
+  if negb (accepts_gzip ae) then run_plain_i s
+  else match find (req_ok cs path) cfgs with
+       | None => run_plain_i s
+       | Some c => run_gz_i c s
+       end.
 End Tables.
 
 (* ---------- what the next handler is ---------- *)
@@ -536,8 +586,8 @@ Definition judge (c : case) : N :=
   match c with
   | CScript cs cfgs head path ae script ret errbody G P =>
       let s := with_error_page script ret errbody in
-      let mg := gzip_serve gen_c18_default_exts cs cfgs path ae s in
-      let mp := run_plain s in
+      let mg := gzip_serve_i gen_c18_default_exts cs cfgs path ae s in
+      let mp := run_plain_i s in
       verdict (agree_obs head mg G && agree_obs head mp P && agree_etag mg mp G P)
               (spec_common head ae G P)
   | CStatic cs cfgs head path ae data sibs errbody G P =>
